@@ -11,6 +11,10 @@
 //	after op=<Op> stop=<Stop> got=<outcome> peers=<n> closed=<k> readers=<r> rdead=<k>
 //	      listed=<0|1> mem=<0|1> gor=<0|1> opconn=<none|closed|open>
 //
+//	connlife branch=<b> stop=<Stop> got=<outcome> closed=<0|1>
+//	      (every connection handed to NewPeer is either run - and closed when the peer or
+//	       the torrent goes - or closed at once; branch = the circumstances of the hand-over)
+//
 // impl.out always says "accept"; the model says "accept" or "reject <why>".
 package main
 
@@ -806,6 +810,203 @@ func (e *env) gettersReturn() (bool, string) {
 	return true, ""
 }
 
+// ---------------------------------------------------------------- connection lifecycle
+var connBranches = []string{"normal", "duplicate-id", "own-id", "simultaneous", "too-many", "remote-closed",
+	"local-closed", "no-extensions", "after-goaway", "dying", "dead"}
+
+// handled: in these branches the event loop dequeues the TorAddPeer (it keeps running)
+func branchStop(b string) string {
+	switch b {
+	case "after-goaway":
+		return "inqueue-goaway"
+	case "dying":
+		return "inqueue-cancel"
+	case "dead":
+		return "before"
+	}
+	return "live"
+}
+
+// runConnCase hands one more connection to a torrent that has a running peer, in the
+// circumstances named by branch, then deletes the torrent: the connection's Close must
+// have been called (by NewPeer itself, by the peer's exit path, or by whoever refuses it).
+func runConnCase(c *vhlib.Ctx, branch string) {
+	if enough(c) {
+		return
+	}
+	c.NewCase()
+	pv := "1"
+	if branch == "too-many" {
+		pv = strings.Repeat("0", 50) // config.MaxPeersPerTorrent
+	}
+	e, serr := setup(pv, 0)
+	stop := branchStop(branch)
+	if serr != "" {
+		c.Emit("connlife branch="+branch+" stop="+stop+" got=setup-failed closed=0", "accept")
+		c.Violate("hang:setup:connlife:"+branch, serr, c.Case())
+		if e != nil && e.cancel != nil {
+			e.cancel()
+		}
+		return
+	}
+	t := e.t
+	id := peerId(e.serial, 77)
+	switch branch {
+	case "duplicate-id", "simultaneous":
+		id = peerId(e.serial, 0) // the id of the peer that is already connected
+	case "own-id":
+		id = t.MyId
+	}
+	hs := protocol.HandshakeResult{Hash: t.Hash, Id: id, Dht: true, Fast: true, Extended: true}
+	if branch == "no-extensions" {
+		hs = protocol.HandshakeResult{Hash: t.Hash, Id: id}
+	}
+	var extra []*remote
+	hand := func() string {
+		r := e.newRemote(branch == "remote-closed")
+		if branch == "local-closed" {
+			r.local.Conn.Close() // closed under our feet; Close must still be called by the owner
+		}
+		extra = append(extra, r)
+		addr := netip.AddrPortFrom(netip.AddrFrom4([4]byte{10, 3, byte(e.serial), byte(len(extra))}), 7100)
+		res := make(chan error, 1)
+		go func() { res <- t.NewPeer("", r.local, addr, branch == "own-id", hs, nil) }()
+		select {
+		case err := <-res:
+			return classify(err)
+		case <-time.After(watchdog):
+			return "hang"
+		}
+	}
+	blocker := make(chan *peer.TorStats)
+	block := func() bool {
+		select {
+		case t.Event <- peer.TorGetStats{Ch: blocker}:
+		case <-time.After(watchdog):
+			return false
+		}
+		return pollUntil(watchdog, func() bool { return len(t.Event) == 0 })
+	}
+	release := func() {
+		select {
+		case <-blocker:
+		case <-time.After(watchdog):
+		}
+	}
+	barrier := func() {
+		done := make(chan struct{})
+		go func() { t.GetStats(); close(done) }()
+		select {
+		case <-done:
+		case <-time.After(watchdog):
+		}
+	}
+	got := ""
+	switch branch {
+	case "after-goaway":
+		if block() {
+			t.Event <- peer.TorGoAway{}
+			got = hand()
+			release()
+		} else {
+			got = "hang"
+		}
+	case "dying":
+		if block() {
+			got = hand()
+			e.cancel()
+			release()
+		} else {
+			got = "hang"
+		}
+	case "dead":
+		t.Kill(context.Background())
+		got = hand()
+	case "simultaneous":
+		// two connections with the same (already known) id queued before the loop sees either
+		if block() {
+			got = hand()
+			g2 := hand()
+			if g2 != got {
+				got = got + "+" + g2
+			}
+			release()
+			barrier()
+		} else {
+			got = "hang"
+		}
+	default:
+		got = hand()
+		barrier()
+	}
+	// delete the torrent; every connection it was handed must end up closed
+	select {
+	case <-t.Deleted:
+	default:
+		kerr := make(chan error, 1)
+		go func() { kerr <- t.Kill(context.Background()) }()
+		select {
+		case <-kerr:
+		case <-time.After(watchdog):
+		}
+	}
+	select {
+	case <-t.Deleted:
+	case <-time.After(watchdog):
+		c.Violate("deletion-stuck:connlife:"+branch, "Deleted was not closed within the watchdog", c.Case())
+	}
+	allClosed := pollUntil(2*time.Second, func() bool {
+		for _, r := range extra {
+			if !r.local.closed.Load() {
+				return false
+			}
+		}
+		return e.closedCount() == len(e.remotes)
+	})
+	extraClosed := true
+	for _, r := range extra {
+		if !r.local.closed.Load() {
+			extraClosed = false
+		}
+	}
+	b := "0"
+	if extraClosed {
+		b = "1"
+	}
+	c.Emit(fmt.Sprintf("connlife branch=%s stop=%s got=%s closed=%s", branch, stop, got, b), "accept")
+	c.Count("connlife/"+branch+"/"+got+"/closed="+b, branch, true)
+	if got == "hang" {
+		c.Violate("hang:NewPeer:connlife:"+branch, "NewPeer did not return", c.Case())
+	}
+	if !extraClosed {
+		if stop == "live" {
+			// the loop was running and has dequeued the TorAddPeer: run or refused, the
+			// connection is the torrent's to close
+			c.Violate("conn-leak:TorAddPeer:"+branch, "a connection handed to NewPeer ("+branch+", NewPeer returned "+got+") was neither run nor closed: Close was never called on it, even after the torrent was deleted", c.Case())
+		} else {
+			c.Violate("conn-open:NewPeer:"+stop+":"+got, "NewPeer returned "+got+" ("+branch+") but the connection it was given is never closed", c.Case())
+		}
+	}
+	if !allClosed && extraClosed {
+		c.Violate("conn-open:peer:connlife:"+branch, "a peer connection was not closed after deletion", c.Case())
+	}
+	// cleanup
+	e.cancel()
+	for _, r := range append(e.remotes, extra...) {
+		r.remote.Close()
+		r.local.Conn.Close()
+	}
+	wgDone := make(chan struct{})
+	go func() { e.wg.Wait(); close(wgDone) }()
+	select {
+	case <-wgDone:
+	case <-time.After(2 * time.Second):
+	}
+	if !pollUntil(2*time.Second, func() bool { return runtime.NumGoroutine() <= e.gor0 }) && extraClosed && got != "hang" {
+		c.Violate("goroutine-leak:connlife:"+branch, fmt.Sprintf("goroutines %d baseline %d\n%s", runtime.NumGoroutine(), e.gor0, stacks()), c.Case())
+	}
+}
+
 func kindPv(pv string) string {
 	if strings.Contains(pv, "2") {
 		return "remote-closed-early"
@@ -873,6 +1074,12 @@ func main() {
 		for _, l := range c.ReplayLines() {
 			if cs, ok := parseCase(l); ok {
 				runCase(c, cs)
+			} else if strings.HasPrefix(l, "connlife ") {
+				for _, w := range strings.Fields(l) {
+					if strings.HasPrefix(w, "branch=") {
+						runConnCase(c, strings.TrimPrefix(w, "branch="))
+					}
+				}
 			} else if !strings.HasPrefix(l, "after") {
 				c.Emit(l, "bad-op")
 			}
@@ -887,6 +1094,19 @@ func main() {
 			for i, pv := range pvs {
 				runCase(c, caseSpec{op: op, stop: stop, pv: pv, readers: i, backlog: 0})
 			}
+		}
+	}
+	// the life of every connection handed to the torrent, per hand-over circumstance
+	reps := 2
+	if c.Tier == "thorough" {
+		reps = 8
+	}
+	for r := 0; r < reps; r++ {
+		for _, b := range connBranches {
+			if b == "too-many" && r > 0 {
+				continue
+			}
+			runConnCase(c, b)
 		}
 	}
 	// random part: peers 0-3 of all variants (including remotes that close at once),
